@@ -94,3 +94,138 @@ Proof.
     destruct i as [|i]; cbn; [reflexivity|]. apply IH. lia.
 Qed.
 
+
+(* ---- the gc / rmask columns of the pooled reference ---------------------------------------------------------- *)
+From CNV Require Import Base.Str Model.Chromsort Model.Center Proofs.ChromsortLemmas.
+Local Open Scope Q_scope.
+Definition bin_seq (seq_of : string -> list ascii) (b : bin) : list ascii :=
+  bases_of (seq_of (b_chrom b)) (b_start b) (b_end b).
+
+Definition fa_gc (seq_of : string -> list ascii) (b : bin) : Q :=
+  fst (bin_gc_lo (seq_of (b_chrom b)) (b_start b) (b_end b)).
+Definition fa_rmask (seq_of : string -> list ascii) (b : bin) : Q :=
+  snd (bin_gc_lo (seq_of (b_chrom b)) (b_start b) (b_end b)).
+
+Lemma fa_gc_spec seq_of b : fa_gc seq_of b == gc_fraction (bin_seq seq_of b).
+Proof. apply bin_gc_lo_spec. Qed.
+Lemma fa_rmask_spec seq_of b : fa_rmask seq_of b == rmask_fraction (bin_seq seq_of b).
+Proof. apply bin_gc_lo_spec. Qed.
+
+Definition col_of (f : option (bin -> Q)) (bins : list bin) : option (list Q) :=
+  option_map (fun g => map g bins) f.
+
+Lemma block_gc_fasta seq_of fix_gc fix_rmask gcf bins :
+  block_gc (Some seq_of) fix_gc fix_rmask gcf bins = col_of (if fix_gc then Some (fa_gc seq_of) else None) bins.
+Proof.
+  unfold block_gc, col_of, fa_stats. destruct fix_gc; cbn [option_map].
+  - rewrite orb_true_r, map_map. reflexivity.
+  - destruct fix_rmask; reflexivity.
+Qed.
+
+Lemma block_rmask_fasta seq_of fix_gc fix_rmask bins :
+  block_rmask (Some seq_of) fix_gc fix_rmask bins = col_of (if fix_rmask then Some (fa_rmask seq_of) else None) bins.
+Proof.
+  unfold block_rmask, col_of, fa_stats. destruct fix_rmask; cbn [option_map orb].
+  - rewrite map_map. reflexivity.
+  - destruct fix_gc; reflexivity.
+Qed.
+
+Lemma block_gc_nofasta fix_gc fix_rmask gcf bins :
+  block_gc None fix_gc fix_rmask gcf bins = if fix_gc then gcf else None.
+Proof. reflexivity. Qed.
+
+Lemma block_rmask_nofasta fix_gc fix_rmask bins : block_rmask None fix_gc fix_rmask bins = None.
+Proof. reflexivity. Qed.
+
+Lemma In_gc_rows_fn (fg fr : option (bin -> Q)) bins r :
+  In r (gc_rows bins (col_of fg bins) (col_of fr bins)) ->
+  In (g_bin r) bins /\ g_gc r = option_map (fun f => f (g_bin r)) fg /\
+  g_rmask r = option_map (fun f => f (g_bin r)) fr.
+Proof.
+  unfold gc_rows, col_of.
+  assert (G : forall l,
+    In r (map (fun p : bin * option Q * option Q => mkGc (fst (fst p)) (snd (fst p)) (snd p))
+              (combine (combine l (opt_col (length l) (option_map (fun g => map g l) fg)))
+                       (opt_col (length l) (option_map (fun g => map g l) fr)))) ->
+    In (g_bin r) l /\ g_gc r = option_map (fun f => f (g_bin r)) fg /\
+    g_rmask r = option_map (fun f => f (g_bin r)) fr).
+  { induction l as [|b t IH]; [cbn; intros []|].
+    destruct fg as [f|], fr as [h|]; cbn [option_map opt_col length repeat map combine] in *;
+      (intros [<-|H]; [cbn; auto|destruct (IH H) as (H1 & H2 & H3); split; [right; exact H1|split; assumption]]). }
+  apply G.
+Qed.
+
+Lemma combine_fst_len {A B} (l : list A) (l' : list B) : length l = length l' -> map fst (combine l l') = l.
+Proof. revert l'. induction l as [|a l IH]; intros [|b l'] H; cbn in *; try congruence. f_equal. apply IH. lia. Qed.
+
+Lemma gc_rows_bins g r bins :
+  (forall l, g = Some l -> length l = length bins) -> (forall l, r = Some l -> length l = length bins) ->
+  map g_bin (gc_rows bins g r) = bins.
+Proof.
+  intros Hg Hr. unfold gc_rows. rewrite map_map. cbn [g_bin].
+  assert (L1 : length (opt_col (length bins) g) = length bins).
+  { destruct g as [l|]; cbn; [rewrite map_length; now apply Hg|apply repeat_length]. }
+  assert (L2 : length (opt_col (length bins) r) = length bins).
+  { destruct r as [l|]; cbn; [rewrite map_length; now apply Hr|apply repeat_length]. }
+  rewrite <- (map_map fst fst). rewrite combine_fst_len by (rewrite combine_length; lia).
+  apply combine_fst_len. lia.
+Qed.
+
+(* with a FASTA: gc (when do_gc) is the G+C fraction of the unambiguous bases of the bin's own sequence, in both
+   blocks; rmask (when do_rmask) is the lowercase fraction, for the antitarget bins only -- the target bins of a
+   pooled reference hold NaN there *)
+Theorem pool_gc_fasta seq_of do_gc do_rmask tbins abins tgc agc r :
+  In r (snd (pool_gc (Some seq_of) do_gc do_rmask tbins abins tgc agc)) ->
+  In (g_bin r) (tbins ++ abins) /\
+  (if do_gc then exists g, g_gc r = Some g /\ g == gc_fraction (bin_seq seq_of (g_bin r)) else g_gc r = None) /\
+  match g_rmask r with
+  | Some m => do_rmask = true /\ In (g_bin r) abins /\ m == rmask_fraction (bin_seq seq_of (g_bin r))
+  | None => do_rmask = false \/ In (g_bin r) tbins
+  end.
+Proof.
+  unfold pool_gc. cbv zeta. rewrite !block_gc_fasta, !block_rmask_fasta.
+  assert (T : In r (gc_rows tbins (col_of (if do_gc then Some (fa_gc seq_of) else None) tbins) (col_of None tbins)) ->
+              In (g_bin r) tbins /\
+              (if do_gc then exists g, g_gc r = Some g /\ g == gc_fraction (bin_seq seq_of (g_bin r)) else g_gc r = None) /\
+              g_rmask r = None).
+  { intros H. apply In_gc_rows_fn in H as (H1 & H2 & H3). split; [exact H1|]. split; [|exact H3].
+    destruct do_gc; cbn in H2; [|exact H2]. eexists. split; [exact H2|apply fa_gc_spec]. }
+  assert (A : In r (gc_rows abins (col_of (if do_gc then Some (fa_gc seq_of) else None) abins)
+                            (col_of (if do_rmask then Some (fa_rmask seq_of) else None) abins)) ->
+              In (g_bin r) abins /\
+              (if do_gc then exists g, g_gc r = Some g /\ g == gc_fraction (bin_seq seq_of (g_bin r)) else g_gc r = None) /\
+              (if do_rmask then exists m, g_rmask r = Some m /\ m == rmask_fraction (bin_seq seq_of (g_bin r))
+               else g_rmask r = None)).
+  { intros H. apply In_gc_rows_fn in H as (H1 & H2 & H3). split; [exact H1|]. split.
+    - destruct do_gc; cbn in H2; [|exact H2]. eexists. split; [exact H2|apply fa_gc_spec].
+    - destruct do_rmask; cbn in H3; [|exact H3]. eexists. split; [exact H3|apply fa_rmask_spec]. }
+  assert (FT : In r (gc_rows tbins (col_of (if do_gc then Some (fa_gc seq_of) else None) tbins) (col_of None tbins)) ->
+    In (g_bin r) (tbins ++ abins) /\
+    (if do_gc then exists g, g_gc r = Some g /\ g == gc_fraction (bin_seq seq_of (g_bin r)) else g_gc r = None) /\
+    match g_rmask r with
+    | Some m => do_rmask = true /\ In (g_bin r) abins /\ m == rmask_fraction (bin_seq seq_of (g_bin r))
+    | None => do_rmask = false \/ In (g_bin r) tbins
+    end).
+  { intros H. destruct (T H) as (H1 & H2 & H3). split; [apply in_or_app; now left|]. split; [exact H2|].
+    rewrite H3. now right. }
+  destruct abins as [|a0 abins'].
+  - cbn [snd]. intros H. apply sort_regions_In in H. rewrite app_nil_r in *. apply FT. exact H.
+  - cbn [snd]. intros H. apply sort_regions_In in H. apply in_app_or in H as [H|H]; [now apply FT|].
+    destruct (A H) as (H1 & H2 & H3). split; [apply in_or_app; now right|]. split; [exact H2|].
+    destruct do_rmask.
+    + destruct H3 as (m & -> & Hm). auto.
+    + rewrite H3. now left.
+Qed.
+
+(* without a FASTA: no rmask column; the gc column of a block is the gc column of its first file (when do_gc and
+   the file has one), row for row *)
+Theorem pool_gc_nofasta do_gc do_rmask tbins abins tgc agc :
+  snd (pool_gc None do_gc do_rmask tbins abins tgc agc) =
+  sort_regions (fun r => bin_proj (g_bin r))
+    (gc_rows tbins (if do_gc then tgc else None) None ++
+     match abins with [] => [] | _ => gc_rows abins (if do_gc then agc else None) None end) /\
+  snd (fst (pool_gc None do_gc do_rmask tbins abins tgc agc)) = false.
+Proof.
+  unfold pool_gc. cbv zeta. rewrite !block_gc_nofasta, !block_rmask_nofasta.
+  destruct abins; cbn [fst snd is_some_col orb]; rewrite ?app_nil_r; split; reflexivity.
+Qed.
